@@ -197,6 +197,18 @@ B8 = {
  "C19-10": ("C19", "a good connection (ticket received), the same server process then holding a bad certificate, a reconnect", "ClientSessionCache added while verification lives in VerifyPeerCertificate with InsecureSkipVerify: resumed sessions skip every check"),
  "C20-5": ("C20", ">= 2 contact points, the first negotiated down to a lower version and then failing at its last step, the second supporting the configured version", "handshake start version taken from state the failed attempt left behind: proxy runs at the lower version"),
 }
+B9 = {
+ "C05-13": ("C05", "first use of a prepared statement on a node that lacks it (UNPREPARED, transparent re-prepare), then a count-limited retryable error (unavailable, read timeout with enough responses, batch-log write timeout)", "the re-execution behind the re-prepare goes through the retry helper and uses the one retry up: the first such error is returned instead of retried"),
+ "C07-8": ("C07", "clients of different keyspaces / compressions on one proxy: a session with an empty keyspace or no compression created after one that has them (also after a failed USE)", "session settings built once and aliased: keyspace and compression of the session created last leak into the next"),
+ "C07-10": ("C07", "two clients in different keyspaces preparing the same statement, or USE ks1, PREPARE, USE ks2, EXECUTE on one connection", "EXECUTE routed to the keyspace remembered proxy-wide for the prepared id instead of the connection's keyspace"),
+ "C08-10": ("C08", "a client that has changed its keyspace, a statement on a table not qualified with a keyspace, every node having lost the statement", "EXECUTE routed through the session without keyspace: the re-PREPARE runs on a connection without keyspace and never yields the client's id"),
+ "C10-12": ("C10", "two Proxy instances in one process (Go API), one in front of a DSE backend, one in front of a non-DSE backend", "per-proxy column table aliases the package-level map: after the DSE proxy connected every proxy presents the DSE columns"),
+ "C12-10": ("C12", "a client whose protocol version differs from the control connection's, a write with a listed consistency", "the overridden frame is built with the control connection's negotiated version: a v4 frame on a v3 backend connection"),
+ "C14-11": ("C14", ">= 2 contact points of which an earlier one reaches a node under an address it does not advertise, a later one that works", "connect()'s deferred close no longer sees the error of its last step: the given-up connection stays registered and every event arrives twice"),
+ "C18-15": ("C18", "backend nodes that differ in release / CQL / DSE version, the control connection re-established on another node while clients send OPTIONS / system reads", "Cluster.Info fields rewritten on reconnect without synchronisation"),
+ "C20-8": ("C20", "a frame of a version above max-protocol-version (refused), then another frame of that version on the same connection", "version validated only when it differs from the remembered one, which is updated before the validation: the connection is then served in the refused version"),
+}
+B8.update(B9)
 B7.update(B8)
 B6.update(B7)
 B5.update(B6)
@@ -228,7 +240,7 @@ for sid in sorted(os.listdir(os.path.join(V, "seeded"))):
         demos = sorted(f for f in os.listdir(d) if f not in ("patch.diff", "meta.json", "notes.md"))
         meta = {
             "id": sid, "breaks_property": prop,
-            "origin": "fresh sub-agent given only the property text and a scratch worktree of /repo (commit %s)" % ("dd3f42b (round 8)" if sid in B8 else "19163b6 (round 7)" if sid in B7 else "19163b6 (round 6)" if sid in B6 else "19163b6" if sid in B5 else "78cb41b" if sid in B4 else "98f4792" if sid in B3 else "2fe6b89"),
+            "origin": "fresh sub-agent given only the property text and a scratch worktree of /repo (commit %s)" % ("dd3f42b (round 9)" if sid in B9 else "dd3f42b (round 8)" if sid in B8 else "19163b6 (round 7)" if sid in B7 else "19163b6 (round 6)" if sid in B6 else "19163b6" if sid in B5 else "78cb41b" if sid in B4 else "98f4792" if sid in B3 else "2fe6b89"),
             "needs_to_manifest": needs, "effect": effect, "demonstration": demos,
             "confirmed": "bin/seedconfirm in the scratch worktree: patch applies, go build ok, existing suite passes with it (in a private network namespace), demonstration FAILS with the patch and PASSES without it",
             "checks_run": "bin/seedtest seeded/%s/patch.diff quick %s ; bin/seedmatrix quick" % (sid, prop),
